@@ -58,10 +58,10 @@ class PModel(PandasIndexFeaturesMixin, RModel):
 
 
 def new_span(typ, ids):
-    if typ.name == 'range':
+    if typ.name in ('range', 'range_zero'):
         if len(set(ids)) == len(ids) and (len(ids) == 0 or _ap(ids) is not None):
             return typ.build(ids)
-        return [100 + i for i in ids]
+        return [typ.label(i, 'obj') for i in ids]
     return typ.build(ids)
 
 
